@@ -70,6 +70,33 @@ def fixedStringList : List PNode → Bytes → Bytes
     fixedStringList ps (if longest.length ≥ curr.length then longest else curr)
 end
 
+mutual
+/-- `PatternNode::fixed_string_named`: the longest literal among the named tokens -/
+def fixedStringNamed : PNode → Bytes
+  | .terminal text named _ => if named then text else []
+  | .metaVar _ => []
+  | .internal _ cs => fixedStringNamedList cs []
+def fixedStringNamedList : List PNode → Bytes → Bytes
+  | [], longest => longest
+  | p :: ps, longest =>
+    let curr := fixedStringNamed p
+    fixedStringNamedList ps (if longest.length ≥ curr.length then longest else curr)
+end
+
+/-- `Pattern::fixed_string()`: the literal the CLI requires a file to contain before parsing it -/
+def patternFixedString (p : PNode) (s : Strictness) : Bytes :=
+  match s with
+  | .cst => fixedString p
+  | .smart => fixedString p
+  | .ast => fixedStringNamed p
+  | .relaxed => fixedStringNamed p
+  | .signature => []
+
+/-- `filter_file_pattern`'s `do_match`: is the file kept for matching? -/
+def prefilterKeeps (p : PNode) (s : Strictness) (file : Bytes) : Bool :=
+  let fixed := patternFixedString p s
+  fixed.isEmpty || (List.range (file.length + 1)).any fun i => (file.drop i).take fixed.length == fixed
+
 /-- `Pattern::potential_kinds` (`rootKind` = `root_kind` of contextual patterns) -/
 def patternPotentialKinds (p : PNode) (rootKind : Option Nat) : Option (List Nat) :=
   match p with
